@@ -8,7 +8,7 @@ LEVEL = "exploration"
 NEEDS = ("rust", "deps")
 EXHAUSTIVE = {"quick": False, "thorough": False}
 REQUIRED_MONITORS = ["python_vs_reference", "rust_vs_reference", "python_vs_rust", "every_cycle_exactly_once",
-                     "advance_contract", "machine_level"]
+                     "advance_contract", "machine_level", "py_fires_per_boundary"]
 RULE = ("period pairs: ALL (p,q) in 0..12 x 0..12 x enabled in {0,1} (complete, both tiers) + sampled large periods "
         "(primes, 2^k+-1, the real defaults); cycle sequences: every-cycle for 5*lcm, gap styles {1,2,p-1,p,p+1,2p,2p+1,10p+3, "
         "random}, with resets and snapshot->restore on a fresh context at seeded points. The same monotone sequence is fed to "
@@ -189,7 +189,7 @@ def run_config(res: Result, cfgs):
     res.monitors["advance_contract"] = _contract["evals"]
 
 
-def run_machine(res: Result, r, n):
+def run_machine(res: Result, r, n, grid=False):
     """Machine level: NOP/WAIT/HALT programs with IMR=0 (no handlers) on PCE500Emulator and CoreRuntime; the driver
     clears ISR after every observation. Clauses: target strictly in the future and phase preserved (multiple of the
     period, first boundary after the last tick); status bit rises iff a boundary was crossed; rises == boundaries
@@ -200,13 +200,19 @@ def run_machine(res: Result, r, n):
     jobs = []
     mains = {"nop": bytes([0x00, 0x00, 0x13, 0x04]), "halt": bytes([0xDE, 0x00, 0x13, 0x04]),
              "wait": bytes([0x0B, 0x00, 0x00, 0xEF, 0x00, 0x13, 0x07])}
-    for _ in range(n):
-        kind = r.choice(list(mains))
+    todo = [None] * n
+    if grid:   # complete small grid: every (mti, sti) in {0,1,3} x {0,1,2,5} x WAIT count, timers enabled
+        todo = [("wait", w, p_, q_) for p_ in (0, 1, 3) for q_ in (0, 1, 2, 5) for w in (1, 2, 3, 5, 9, 20)] + \
+               [(k_, 0, p_, q_) for k_ in ("nop", "halt") for p_ in (0, 1, 3) for q_ in (0, 1, 2, 5)]
+    for fixed in todo:
+        kind = r.choice(list(mains)) if fixed is None else fixed[0]
         code = bytearray(mains[kind])
         if kind == "wait":
-            code[1] = r.choice((1, 2, 3, 5, 9, 20))
-        p, q = r.choice((1, 2, 3, 4, 5, 7, 9, 16)), r.choice((0, 2, 3, 5, 8, 11))
+            code[1] = r.choice((1, 2, 3, 5, 9, 20)) if fixed is None else fixed[1]
+        p, q = r.choice((0, 1, 2, 3, 4, 5, 7, 9, 16)), r.choice((0, 1, 2, 3, 5, 8, 11))
         en = r.random() < 0.85
+        if fixed is not None:
+            p, q, en = fixed[2], fixed[3], True
         reset = bytes([0x0F]) + le3(0xB9000) + bytes([0x32, 0xCC, 0xFB, 0x00])
         scen = {"code": [[ROM_BASE, (reset + bytes(code)).hex()], [VECTOR, le3(ROM_BASE).hex()], [ENTRY, le3(ROM_BASE).hex()]],
                 "regs": {"PC": ROM_BASE, "S": 0xB9000}, "imem": {0xFB: 0, 0xFC: 0},
@@ -217,7 +223,31 @@ def run_machine(res: Result, r, n):
         jobs.append((scen, script, kind, p, q, en))
     routs = machine.run_rust([(s, sc) for s, sc, *_ in jobs], key_codes())
     for (scen, script, kind, p, q, en), (robs, rerr, _) in zip(jobs, routs):
-        pobs = machine.PyMachine(scen).run(script)
+        pm = machine.PyMachine(scen)
+        # invariant at a hook (Python): every call of the real scheduler's advance() is counted per source, so that a
+        # multi-cycle WAIT can be checked for "one fire per boundary crossed" (the status bit alone cannot show a merge)
+        fires = {"MTI": 0, "STI": 0}
+        sched = pm.emu._scheduler
+        orig_adv = sched.advance
+
+        def counting_advance(cycle_count, _o=orig_adv, _f=fires):
+            out = list(_o(cycle_count))
+            for src in out:
+                name = getattr(src, "name", str(src))
+                if name in _f:
+                    _f[name] += 1
+            return out
+        sched.advance = counting_advance
+        pobs = pm.run(script)
+        if en and pobs:
+            endc = pobs[-1]["cycles"]
+            for name, per in (("MTI", p), ("STI", q)):
+                res.monitor("py_fires_per_boundary")
+                want = {(endc - 1) // per, endc // per} if per > 0 else {0}
+                if fires[name] not in want:
+                    res.violation({"clause": "fires_not_one_per_boundary_crossed", "model": "py", "main": kind, "timer": name},
+                                  {"model": "py", "main": kind, "mti": p, "sti": q, "enabled": en, "steps": len(pobs)},
+                                  {"fires": fires[name], "boundaries_crossed": sorted(want), "end_cycle": endc})
         for model, obs in (("py", pobs), ("rs", robs)):
             res.evaluations += 1
             res.monitor("machine_level")
@@ -261,6 +291,7 @@ def plan(tier, seed):
     idx = 0
     for i in range(4 if tier == "quick" else 16):
         specs.append({"kind": "machine", "seed": seed, "tier": tier, "idx": 1000 + i})
+    specs.append({"kind": "machine", "grid": True, "seed": seed, "tier": tier, "idx": 1100})
     for p in range(13):
         specs.append({"kind": "small", "p": p, "seed": seed, "tier": tier, "idx": idx}); idx += 1
     parts = 4 if tier == "quick" else 16
@@ -277,7 +308,7 @@ def run_shard(spec) -> Result:
     r = rng(spec["seed"], "c13", spec["idx"])
     cfgs = []
     if spec["kind"] == "machine":
-        run_machine(res, r, 40 if spec["tier"] == "quick" else 400)
+        run_machine(res, r, 40 if spec["tier"] == "quick" else 400, grid=bool(spec.get("grid")))
         return res
     if spec["kind"] == "small":
         p = spec["p"]
